@@ -1,5 +1,6 @@
 import Ptn.C04.Model
 import Ptn.C04.TreeModel
+import Ptn.C05.HeffModel
 /-! Line-protocol handler for C04 (core Lean only).
 
 A node is written `<parent|->/<child,child,…|->`; identifiers are natural numbers; an identifier
@@ -20,6 +21,10 @@ Leg tokens: kN<n> kP bN<n> bP oN<n> oO oI BK<n> BO<n> BB<n>.
                                                              gK<i>_<n> gKP<i> gB<i>_<n> gBP<i>)
   tree3 <root> <id>:<ket kids>;<operator kids> …          → expectation_value on the whole tree (… gO<i>_<n>
                                                              gOO<i> gOI<i>; the bra is the conjugated ket)
+  siteheff <i> <statenode> <hamnode>                      → get_effective_single_site_hamiltonian_nodes for node i:
+                                                             `rows <legs> | cols <legs> | binds …` (blocks gK<n>_<i> gO<n>_<i> gB<n>_<i>)
+  linkheff <linknode> <node> <next>                       → _get_effective_link_hamiltonian(node, next)
+  twoheff <target> <next> <hamtarget> <hamnext> <twosite> → _get_effective_two_site_hamiltonian(target, next)
   asmat <root> <id>:<kids>;- …                            → TTNO.as_matrix: `order <ids> | rows <legs> | cols <legs> | binds …`
 -/
 namespace Ptn.C04
@@ -53,6 +58,13 @@ def showT : Option T → String
   | some t =>
     ("legs " ++ " ".intercalate (t.legs.map showLeg)).trimAscii.toString ++ " | " ++
     ("binds " ++ " ".intercalate (t.binds.map fun p => showLeg p.1 ++ "~" ++ showLeg p.2)).trimAscii.toString
+
+def showMat : Option Ptn.C05.Heff.Mat → String
+  | none => "error"
+  | some m =>
+    ("rows " ++ " ".intercalate (m.rows.map showLeg)).trimAscii.toString ++ " | " ++
+    ("cols " ++ " ".intercalate (m.cols.map showLeg)).trimAscii.toString ++ " | " ++
+    ("binds " ++ " ".intercalate (m.binds.map fun p => showLeg p.1 ++ "~" ++ showLeg p.2)).trimAscii.toString
 
 def showNats (l : List Nat) : String := if l.isEmpty then "-" else ",".intercalate (l.map toString)
 
@@ -149,6 +161,26 @@ def handle (args : List String) : String :=
     | some (t, other) =>
       showT (expectationValue (netOf t (fun _ ks => ks) gKetT) (netOf t (fun i _ => other i) gOpT) gBraT)
     | none => "bad-op"
+  | ["siteheff", i, sn, hn] =>
+    match i.toNat?, parseNode sn, parseNode hn with
+    | some i, some sn, some hn =>
+      showMat (Ptn.C05.Heff.getEffectiveSingleSiteHamiltonianNodes sn hn (gOpT i hn)
+        (fun n => some (Ptn.C05.Heff.gBlock n i [])))
+    | _, _, _ => "bad-op"
+  | ["linkheff", ln, a, b] =>
+    match parseNode ln, a.toNat?, b.toNat? with
+    | some ln, some a, some b =>
+      showMat (Ptn.C05.Heff.getEffectiveLinkHamiltonian ln a b (fun k =>
+        if k = (a, b) then some (Ptn.C05.Heff.gBlock a b []) else if k = (b, a) then some (Ptn.C05.Heff.gBlock b a [])
+        else none))
+    | _, _, _ => "bad-op"
+  | ["twoheff", t, x, ht, hx, ts] =>
+    match t.toNat?, x.toNat?, parseNode ht, parseNode hx, parseNode ts with
+    | some t, some x, some ht, some hx, some ts =>
+      showMat (Ptn.C05.Heff.getEffectiveTwoSiteHamiltonian ht hx ts (gOpT t ht) (gOpT x hx) t x (fun k =>
+        if (k.2 = t ∧ k.1 ∈ ht.nbrs ∧ k.1 ≠ x) ∨ (k.2 = x ∧ k.1 ∈ hx.nbrs ∧ k.1 ≠ t)
+        then some (Ptn.C05.Heff.gBlock k.1 k.2 []) else none))
+    | _, _, _, _, _ => "bad-op"
   | "asmat" :: root :: entries =>
     match parseTreeCase root entries with
     | some (t, _) =>
